@@ -1,0 +1,28 @@
+//go:build verif
+
+// Package verifhook provides observation points for the external verification harness.
+// With the "verif" build tag, At forwards to Handler, which the harness installs.
+package verifhook
+
+import "sync/atomic"
+
+// Enabled reports whether hooks are compiled in.
+const Enabled = true
+
+var handler atomic.Pointer[func(point string, args ...any)]
+
+// SetHandler installs (or, with nil, removes) the function called at every observation point.
+func SetHandler(h func(point string, args ...any)) {
+	if h == nil {
+		handler.Store(nil)
+		return
+	}
+	handler.Store(&h)
+}
+
+// At marks an observation point.
+func At(point string, args ...any) {
+	if h := handler.Load(); h != nil {
+		(*h)(point, args...)
+	}
+}
